@@ -762,6 +762,11 @@ def absval_norm(o):
                 if ca is None and nt.isDefaulted:
                     ca = absval_norm(nt.asn1Object)
             items.append(ca)
+        if isinstance(o, univ.Set) and not len(ct):
+            # a SET without declared components: the members are an unordered collection of
+            # differently tagged values (DER/CER sort them by tag); marked so that absval_canon
+            # can compare them as such
+            return a[:2] + (tuple(items), 'dynamic-set')
         return a[:2] + (tuple(items),)
     return a
 
@@ -775,6 +780,8 @@ def _canon(a):
     if isinstance(a, tuple):
         if len(a) == 3 and a[0] == 'SetOf' and isinstance(a[2], tuple):
             return (a[0], a[1], tuple(sorted((_canon(x) for x in a[2]), key=repr)))
+        if len(a) == 4 and a[3] == 'dynamic-set' and isinstance(a[2], tuple):
+            return (a[0], a[1], tuple(sorted((_canon(x) for x in a[2]), key=repr)), a[3])
         if len(a) == 3 and a[0] == 'Real' and isinstance(a[2], tuple) and len(a[2]) == 3:
             return (a[0], a[1], _canon_real(a[2]))
         return tuple(_canon(x) for x in a)
